@@ -101,7 +101,7 @@ def step (s : State) (t : List String) : State × String :=
   | [] => bad s
   | op0 :: args =>
     let (op, raw) := stripRaw op0
-    if raw ∧ !(["send", "sendu", "multi", "mint", "burn", "add", "sub"].contains op) then bad s else
+    if raw ∧ !(["send", "sendu", "fee", "multi", "mint", "burn", "add", "sub"].contains op) then bad s else
     match op, args with
     | "send", [f, t, c] =>
       match parseAddr f, parseAddr t, parseCoins c with
@@ -110,6 +110,10 @@ def step (s : State) (t : List String) : State × String :=
     | "sendu", [f, t, c] =>
       match parseAddr f, parseAddr t, parseCoins c with
       | some f, some t, some c => finish s raw (rawStep tier s (.sendU f t c))
+      | _, _, _ => bad s
+    | "fee", [f, t, c] =>
+      match parseAddr f, parseAddr t, parseCoins c with
+      | some f, some t, some c => finish s raw (rawStep tier s (.fee f t c))
       | _, _, _ => bad s
     | "multi", [i, o] =>
       match parseIO i, parseIO o with
